@@ -7,7 +7,7 @@
    tagged Ethernet header is longer than the frame.  Before them the three statements below were refuted
    (19-byte ARP frame: panic; 31-byte ARP frame: sender address read from the spare capacity; 16-byte
    802.1Q frame: Frame.Payload() panics); the former witnesses are kept as regression examples. *)
-From PV Require Import Base.Prelude Base.Slice Model.Parse Model.ParseKnown Proofs.Parse Proofs.ParseSim Proofs.ParseAcc.
+From PV Require Import Base.Prelude Base.Slice Model.Parse Model.ParseKnown Proofs.Parse Proofs.ParseSim Proofs.ParseAcc Proofs.ParseAlias.
 Open Scope N_scope.
 
 (* ---- Parse never panics / never spins: every slice, every capacity, every configuration ------------ *)
@@ -28,6 +28,22 @@ Example C01_former_panic_witnesses :
   parse cfg0 (of_bytes w_arp19) = Err EParseFrame /\ parse cfg0 (of_bytes w_arp14) = Err EParseFrame.
 Proof. exact (conj parse_arp19_fixed parse_arp14_fixed). Qed.
 Print Assumptions C01_former_panic_witnesses.
+
+(* Session.Statistics is indexed by the PayloadID (h.Statistics[id].Count++ on Parse's way) and has [stats_len] entries
+   (Model/Parse.v; the harness reads the length off a session built by the library's constructor on every run, kind
+   "consts statslen").  Every id Parse can return, and every id of the three classification tables and of the fixed
+   assignments, is a valid index: 0 < id < stats_len. *)
+Theorem C01_stats_index_in_range : forall c s f, parse c s = Ok f -> 0 < f_id f /\ f_id f < stats_len.
+Proof. intros c s f H. pose proof (parse_id_in_range c s) as P. rewrite H in P. exact P. Qed.
+Print Assumptions C01_stats_index_in_range.
+
+Theorem C01_table_ids_in_range :
+  forallb (fun r => snd r <? stats_len) ethertype_rows && forallb (fun r => snd r <? stats_len) ipproto_rows
+  && forallb (fun r => snd r <? stats_len) udp_port_rows
+  && forallb (fun i => i <? stats_len) [PayloadEther; Payload8023; PayloadARP; PayloadIP4; PayloadIP6; PayloadUDP; PayloadTCP;
+                                        PayloadICMP4; PayloadICMP6; PayloadIGMP] = true.
+Proof. exact table_ids_in_range. Qed.
+Print Assumptions C01_table_ids_in_range.
 
 (* ---- the result depends only on the bytes within the length ---------------------------------------- *)
 (* The whole result (offsets, PayloadID, addresses, ports, the key handed to the host table, the echo id handed
